@@ -92,23 +92,13 @@ def load_known():
         return json.load(fh)
 
 
-def selftest_on_scratch(prop, mod):
-    """Thorough tier only: run this property's rules on seeded variants of the CURRENT /repo tree (one textual
-    edit each, fixtures/variants.py) applied to a scratch copy outside /repo and /verif, which is removed afterwards.
-    Checks the checker: every non-benign variant must make its expected rule fire, every benign refactor must stay
-    silent.  Static analysis of variants; nothing is executed.  A miss is reported in the evidence and on stderr, it is
-    not a violation of the property on the unchanged tree."""
-    import shutil, subprocess, tempfile
-    try:
-        from fixtures import variants
-    except Exception as e:           # fixtures are optional
-        return {"error": str(e)}
-    mine = [v for v in variants.VARIANTS if v["prop"] == prop]
-    flt = os.environ.get("VERIF_SELFTEST_FILTER")
-    if flt:
-        mine = [v for v in mine if flt in v["name"]]
-    if not mine:
-        return {"variants": 0}
+def _selftest_worker(args):
+    """runs a slice of a property's fixtures on its own scratch copy; returns the result rows"""
+    import importlib, shutil, subprocess, tempfile
+    prop, names = args
+    from fixtures import variants
+    mod = importlib.import_module(f"rules.{prop}")
+    mine = [v for v in variants.VARIANTS if v["prop"] == prop and v["name"] in names]
     scratch = tempfile.mkdtemp(prefix="ipa-verif-scratch-")
     rows = []
     try:
@@ -145,10 +135,41 @@ def selftest_on_scratch(prop, mod):
                 exp = [exp] if isinstance(exp, str) else exp
                 ok = status == "ran" and any(all(x in f for x in exp) for f in fired)
             rows.append({"variant": v["name"], "benign": bool(v.get("benign")), "status": status, "ok": ok, "fired": fired[:4]})
-            if not ok:
-                print(f"[selftest] {prop} variant {v['name']}: {'NOT DETECTED' if not v.get('benign') else 'FALSE ALARM'} ({status}) fired={fired[:3]}", file=sys.stderr)
     finally:
         shutil.rmtree(scratch, ignore_errors=True)
+    return rows
+
+
+def selftest_on_scratch(prop, mod):
+    """Thorough tier only: run this property's rules on seeded variants of the CURRENT /repo tree (one textual
+    edit each, fixtures/variants.py) applied to scratch copies outside /repo and /verif, which are removed afterwards.
+    Checks the checker: every non-benign variant must make its expected rule fire, every benign refactor must stay
+    silent.  Static analysis of variants; nothing is executed.  A miss is reported in the evidence and on stderr, it is
+    not a violation of the property on the unchanged tree.  The variants are spread over a few worker processes
+    (VERIF_SELFTEST_JOBS, default 3 = the number of extraction slots), each with its own scratch copy."""
+    import multiprocessing
+    try:
+        from fixtures import variants
+    except Exception as e:           # fixtures are optional
+        return {"error": str(e)}
+    mine = [v for v in variants.VARIANTS if v["prop"] == prop]
+    flt = os.environ.get("VERIF_SELFTEST_FILTER")
+    if flt:
+        mine = [v for v in mine if flt in v["name"]]
+    if not mine:
+        return {"variants": 0}
+    jobs = max(1, min(int(os.environ.get("VERIF_SELFTEST_JOBS", "3")), len(mine)))
+    chunks = [[v["name"] for v in mine[k::jobs]] for k in range(jobs)]
+    if jobs == 1:
+        parts = [_selftest_worker((prop, chunks[0]))]
+    else:
+        with multiprocessing.get_context("fork").Pool(jobs) as pool:
+            parts = pool.map(_selftest_worker, [(prop, c) for c in chunks])
+    order = {v["name"]: k for k, v in enumerate(mine)}
+    rows = sorted((r for p_ in parts for r in p_), key=lambda r: order.get(r["variant"], 0))
+    for r in rows:
+        if not r["ok"]:
+            print(f"[selftest] {prop} variant {r['variant']}: {'NOT DETECTED' if not r['benign'] else 'FALSE ALARM'} ({r['status']}) fired={r['fired'][:3]}", file=sys.stderr)
     return {"variants": len(rows), "detected": sum(1 for r in rows if r["ok"] and not r["benign"]), "benign_silent": sum(1 for r in rows if r["ok"] and r["benign"]),
             "problems": [r for r in rows if not r["ok"]], "rows": rows}
 
